@@ -32,3 +32,126 @@ package core
 //@   loop 1 invariant labels: soff(hasLabelIdx) == 0 && len(hasLabelIdx) >= 0 &&
 //@       (forall j :: 0 <= j && j < len(hasLabelIdx) ==> 0 <= hasLabelIdx[j] && hasLabelIdx[j] < len(pipe))
 //@   loop 1 invariant range: rangeindex < len(pipe)
+
+// ---- C01: stream processes --------------------------------------------------------
+// A goroutine body that reads `in` by blocking receive and writes `out` is a sequential
+// process; its contract relates the output history to the input history (DESIGN §4.3).
+// Vocabulary: in[j] / out[j] = j-th item of the channel's history, rd(in) = items
+// received so far, len(in) = total items the channel will ever carry, wr(out) = items
+// sent so far, closed(out). tSignal(t) = t is a signal traveler.
+// nonsig(in,k) / cnt(in,k) are DEFINED by the axioms of each contract (primitive
+// recursion over the input history).
+
+// limit(n): signals pass in place; exactly the first min(N, n) non-signal travelers are
+// forwarded, where N is the untruncated count; the output is a subsequence of the input.
+//@ func (*Limit).Process$1
+//@   property C01
+//@   option prelude=trav
+//@   option load=gdbi
+//@   nopanic
+//@   overflow
+//@   requires fresh: rd(in) == 0 && wr(out) == 0 && !closed(out) && in != out && out != nil && in != nil && l != nil
+//@   requires bounded: len(in) < 4294967296
+//@   requires items: forall j :: 0 <= j && j < len(in) ==> in[j] != nil
+//@   axiom ns0: nonsig(in, 0) == 0
+//@   axiom nsS: forall k :: 0 <= k ==> nonsig(in, k + 1) == nonsig(in, k) + ite(tSignal(in[k]), 0, 1)
+//@   axiom c0: cnt(in, 0) == 0
+//@   axiom cS: forall k :: 0 <= k ==> cnt(in, k + 1) == cnt(in, k) + ite(tSignal(in[k]) || nonsig(in, k) < l.count, 1, 0)
+//@   loop 1 invariant pos: 0 <= rd(in) && rd(in) <= len(in) && !closed(out)
+//@   loop 1 invariant count: i == nonsig(in, rd(in)) && i <= rd(in)
+//@   loop 1 invariant sent: wr(out) == cnt(in, rd(in))
+//@   loop 1 invariant mono: forall j :: 0 <= j && j <= rd(in) ==> cnt(in, j) <= cnt(in, rd(in))
+//@   loop 1 invariant elems: forall j :: 0 <= j && j < rd(in) && (tSignal(in[j]) || nonsig(in, j) < l.count) ==> out[cnt(in, j)] == in[j]
+//@   loop 1 invariant arith: cnt(in, rd(in)) == (rd(in) - nonsig(in, rd(in))) + imin(nonsig(in, rd(in)), l.count)
+//@   ensures closed: closed(out)
+//@   ensures drained: rd(in) == len(in)
+//@   ensures length: wr(out) == cnt(in, len(in))
+//@   ensures elems: forall j :: 0 <= j && j < len(in) && (tSignal(in[j]) || nonsig(in, j) < l.count) ==> out[cnt(in, j)] == in[j]
+//@   ensures arith: wr(out) == (len(in) - nonsig(in, len(in))) + imin(nonsig(in, len(in)), l.count)
+
+// skip(n): signals pass in place; exactly the non-signal travelers of rank >= n are
+// forwarded (the last max(0, N - n) of them).
+//@ func (*Skip).Process$1
+//@   property C01
+//@   option prelude=trav
+//@   option load=gdbi
+//@   nopanic
+//@   overflow
+//@   requires fresh: rd(in) == 0 && wr(out) == 0 && !closed(out) && in != out && out != nil && in != nil && o != nil
+//@   requires bounded: len(in) < 4294967296
+//@   requires items: forall j :: 0 <= j && j < len(in) ==> in[j] != nil
+//@   axiom ns0: nonsig(in, 0) == 0
+//@   axiom nsS: forall k :: 0 <= k ==> nonsig(in, k + 1) == nonsig(in, k) + ite(tSignal(in[k]), 0, 1)
+//@   axiom c0: cnt(in, 0) == 0
+//@   axiom cS: forall k :: 0 <= k ==> cnt(in, k + 1) == cnt(in, k) + ite(tSignal(in[k]) || nonsig(in, k) >= o.count, 1, 0)
+//@   loop 1 invariant pos: 0 <= rd(in) && rd(in) <= len(in) && !closed(out)
+//@   loop 1 invariant count: i == nonsig(in, rd(in)) && i <= rd(in)
+//@   loop 1 invariant sent: wr(out) == cnt(in, rd(in))
+//@   loop 1 invariant mono: forall j :: 0 <= j && j <= rd(in) ==> cnt(in, j) <= cnt(in, rd(in))
+//@   loop 1 invariant elems: forall j :: 0 <= j && j < rd(in) && (tSignal(in[j]) || nonsig(in, j) >= o.count) ==> out[cnt(in, j)] == in[j]
+//@   loop 1 invariant arith: cnt(in, rd(in)) == (rd(in) - nonsig(in, rd(in))) + imax(0, nonsig(in, rd(in)) - o.count)
+//@   ensures closed: closed(out)
+//@   ensures drained: rd(in) == len(in)
+//@   ensures length: wr(out) == cnt(in, len(in))
+//@   ensures elems: forall j :: 0 <= j && j < len(in) && (tSignal(in[j]) || nonsig(in, j) >= o.count) ==> out[cnt(in, j)] == in[j]
+//@   ensures arith: wr(out) == (len(in) - nonsig(in, len(in))) + imax(0, nonsig(in, len(in)) - o.count)
+
+// range(a, b): signals pass in place; exactly the non-signal travelers of rank r with
+// a <= r and (r < b or b == -1) are forwarded.
+//@ func (*Range).Process$1
+//@   property C01
+//@   option prelude=trav
+//@   option load=gdbi
+//@   nopanic
+//@   overflow
+//@   requires fresh: rd(in) == 0 && wr(out) == 0 && !closed(out) && in != out && out != nil && in != nil && r != nil
+//@   requires bounded: len(in) < 2147483648
+//@   requires items: forall j :: 0 <= j && j < len(in) ==> in[j] != nil
+//@   let lo = imax(r.start, 0)
+//@   axiom ns0: nonsig(in, 0) == 0
+//@   axiom nsS: forall k :: 0 <= k ==> nonsig(in, k + 1) == nonsig(in, k) + ite(tSignal(in[k]), 0, 1)
+//@   axiom c0: cnt(in, 0) == 0
+//@   axiom cS: forall k :: 0 <= k ==> cnt(in, k + 1) == cnt(in, k) +
+//@       ite(tSignal(in[k]) || (nonsig(in, k) >= r.start && (nonsig(in, k) < r.stop || r.stop == 0 - 1)), 1, 0)
+//@   loop 1 invariant pos: 0 <= rd(in) && rd(in) <= len(in) && !closed(out)
+//@   loop 1 invariant count: i == nonsig(in, rd(in)) && i <= rd(in) && 0 <= i
+//@   loop 1 invariant sent: wr(out) == cnt(in, rd(in))
+//@   loop 1 invariant mono: forall j :: 0 <= j && j <= rd(in) ==> cnt(in, j) <= cnt(in, rd(in))
+//@   loop 1 invariant elems: forall j :: 0 <= j && j < rd(in) &&
+//@       (tSignal(in[j]) || (nonsig(in, j) >= r.start && (nonsig(in, j) < r.stop || r.stop == 0 - 1))) ==> out[cnt(in, j)] == in[j]
+//@   loop 1 invariant arith: cnt(in, rd(in)) == (rd(in) - nonsig(in, rd(in))) +
+//@       imax(0, ite(r.stop == 0 - 1, nonsig(in, rd(in)), imin(nonsig(in, rd(in)), imax(r.stop, 0))) - lo)
+//@   ensures closed: closed(out)
+//@   ensures drained: rd(in) == len(in)
+//@   ensures length: wr(out) == cnt(in, len(in))
+//@   ensures elems: forall j :: 0 <= j && j < len(in) &&
+//@       (tSignal(in[j]) || (nonsig(in, j) >= r.start && (nonsig(in, j) < r.stop || r.stop == 0 - 1))) ==> out[cnt(in, j)] == in[j]
+//@   ensures arith: wr(out) == (len(in) - nonsig(in, len(in))) +
+//@       imax(0, ite(r.stop == 0 - 1, nonsig(in, len(in)), imin(nonsig(in, len(in)), imax(r.stop, 0))) - lo)
+
+// count(): signals pass in place, then one traveler whose Count is the number of
+// non-signal travelers received.
+//@ func (*Count).Process$1
+//@   property C01 C02
+//@   option prelude=trav
+//@   option load=gdbi
+//@   nopanic
+//@   overflow
+//@   requires fresh: rd(in) == 0 && wr(out) == 0 && !closed(out) && in != out && out != nil && in != nil
+//@   requires bounded: len(in) < 4294967296
+//@   requires items: forall j :: 0 <= j && j < len(in) ==> in[j] != nil
+//@   axiom ns0: nonsig(in, 0) == 0
+//@   axiom nsS: forall k :: 0 <= k ==> nonsig(in, k + 1) == nonsig(in, k) + ite(tSignal(in[k]), 0, 1)
+//@   axiom c0: cnt(in, 0) == 0
+//@   axiom cS: forall k :: 0 <= k ==> cnt(in, k + 1) == cnt(in, k) + ite(tSignal(in[k]), 1, 0)
+//@   loop 1 invariant pos: 0 <= rd(in) && rd(in) <= len(in) && !closed(out)
+//@   loop 1 invariant count: i == nonsig(in, rd(in)) && i <= rd(in)
+//@   loop 1 invariant sent: wr(out) == cnt(in, rd(in))
+//@   loop 1 invariant mono: forall j :: 0 <= j && j <= rd(in) ==> cnt(in, j) <= cnt(in, rd(in))
+//@   loop 1 invariant elems: forall j :: 0 <= j && j < rd(in) && tSignal(in[j]) ==> out[cnt(in, j)] == in[j]
+//@   ensures closed: closed(out)
+//@   ensures drained: rd(in) == len(in)
+//@   ensures length: wr(out) == cnt(in, len(in)) + 1
+//@   ensures signals: forall j :: 0 <= j && j < len(in) && tSignal(in[j]) ==> out[cnt(in, j)] == in[j]
+//@   ensures total: dyn(out[cnt(in, len(in))], "*gdbi.BaseTraveler") &&
+//@       ptr(out[cnt(in, len(in))], "*gdbi.BaseTraveler").Count == nonsig(in, len(in))
